@@ -266,7 +266,8 @@ func (st *Style) Render(n *Node) string {
 
 // ---- pools ----
 var namePool = []string{"x", "y", "z", "a", "b", "c", "k", "name", "order", "nota", "prx", "e5", "E", "inx", "trueish", "nullable", "andy", "orb",
-	"a-b", "a_b", "a:b", "X9", "eqx", "NOTE", "gte", "version", "Or", "And", "Pr", "e", "E1x", "q1"}
+	"a-b", "a_b", "a:b", "X9", "eqx", "NOTE", "gte", "version", "Or", "And", "Pr", "e", "E1x", "q1",
+	"is-NULL", "opt:TRUE", "x-OR", "go-AND-stop", "FALSE-y", "PR", "nullx", "e1", "E12", "AND", "OR", "TRUE", "NULL", "In", "Not", "trUe"}
 
 var keywords = map[string]bool{"not": true, "NOT": true, "and": true, "or": true, "true": true, "false": true, "null": true, "IN": true, "in": true,
 	"eq": true, "EQ": true, "ne": true, "NE": true, "gt": true, "GT": true, "lt": true, "LT": true, "ge": true, "GE": true, "le": true, "LE": true,
@@ -295,6 +296,9 @@ func genPath(r *RNG, maxSeg int) []string {
 	if r.Chance(4, 10) {
 		n = 1 + r.Intn(maxSeg)
 	}
+	if maxSeg > 1 && r.Chance(1, bigOneIn) {
+		n = pick(r, []int{33, 40, 130})
+	}
 	p := make([]string, n)
 	for i := range p {
 		p[i] = genName(r)
@@ -315,12 +319,12 @@ var dblPool = []string{"0.0", "-0.0", "1.0", "-1.0", "1.5", "-1.5", "2.50", "0.1
 var badDblPool = []string{"1.0e999", "-1.0e999", "1.8e308", "1.0e400"}
 
 var verPool = []string{"1.0.0", "1.2.3", "1.10.0", "1.9.0", "0.0.0", "0.0.1", "10.20.30", "2.0.0", "1.0.10", "1.1.0", "1.1.1", "0.9.99", "3.0.0", "100.0.0", "1.0.9",
-	"18446744073709551615.0.0", "1.18446744073709551615.1"}
+	"18446744073709551615.0.0", "1.18446744073709551615.1", "65535.0.0", "65536.0.0", "70000.1.2", "4464.1.2", "16777215.0.0", "16777216.0.0", "1.65536.0", "1.0.16777216", "4294967296.0.0"}
 
 var hugeVerPool = []string{"18446744073709551616.0.0", "1.18446744073709551616.0", "1.0.99999999999999999999"}
 
 var strPool = []string{"", "abc", "ABC", "aBc", "ab", "bc", "b", "a b", " abc", "abc ", "  ", "cde", "Straße", "STRASSE", "strasse", "İ", "i", "ǅ", "ǆ", "K", "k", "ſ", "s", "ς", "σ", "Σ",
-	"héllo", "HÉLLO", "日本語", "x", "X", "zz", "Zz", "1.0.0", "true", "null", "a.b", "[1]", "a,b", "(a)", "Ω", "ω", "Å", "å", "é", "É", "ab\tcd", "line\nbreak", "Ⱥ", "ⱥ", "ẞ", "ß", "line1\r\nline2", "\r\n", "a\rb", "\n", "tab\there ", "Ω", "Å", "\u2028x", "nul\x00byte", "\x7f", "𝒳𝒴", "ＡＢ", "ǰ", "ŉ", "<nil>", "<NIL>", "Ⅷ", "ⅷ", "Ⓐ", "ⓐ"}
+	"héllo", "HÉLLO", "日本語", "x", "X", "zz", "Zz", "1.0.0", "true", "null", "a.b", "[1]", "a,b", "(a)", "Ω", "ω", "Å", "å", "é", "É", "ab\tcd", "line\nbreak", "Ⱥ", "ⱥ", "ẞ", "ß", "line1\r\nline2", "\r\n", "a\rb", "\n", "tab\there ", "Ω", "Å", "\u2028x", "nul\x00byte", "\x7f", "𝒳𝒴", "ＡＢ", "ǰ", "ŉ", "<nil>", "<NIL>", "Ⅷ", "ⅷ", "Ⓐ", "ⓐ", "(", ")", "((", "a(b", "x )", "x  z", "x !", "x 5", "a\tb  c", "10", "1.5", "1.2.3", "5"}
 
 // bodies with the escape sequences the grammar allows (the engine keeps them verbatim: no unescaping). Used for the
 // elements of string lists only: C04 leaves literals with backslashes outside its claim.
@@ -350,6 +354,9 @@ func genLit(r *RNG, kind string) Lit {
 		return Lit{Kind: "long", Text: genLong(r)}
 	case "ilist":
 		n := 1 + r.Intn(5)
+		if r.Chance(1, bigOneIn) {
+			n = pick(r, []int{65, 70, 260, 1100})
+		}
 		l := Lit{Kind: "ilist"}
 		for i := 0; i < n; i++ {
 			e := genLong(r)
@@ -368,6 +375,9 @@ func genLit(r *RNG, kind string) Lit {
 		return l
 	case "dlist":
 		n := 1 + r.Intn(5)
+		if r.Chance(1, bigOneIn) {
+			n = pick(r, []int{65, 70, 260, 1100})
+		}
 		l := Lit{Kind: "dlist"}
 		for i := 0; i < n; i++ {
 			l.Elems = append(l.Elems, genDbl(r))
@@ -375,6 +385,9 @@ func genLit(r *RNG, kind string) Lit {
 		return l
 	case "slist":
 		n := 1 + r.Intn(5)
+		if r.Chance(1, bigOneIn) {
+			n = pick(r, []int{65, 70, 260, 1100})
+		}
 		l := Lit{Kind: "slist"}
 		for i := 0; i < n; i++ {
 			if r.Chance(1, 8) {
@@ -461,9 +474,78 @@ func genLeaf(r *RNG, maxSeg int) *Node {
 
 // genTree builds a tree in the grammar's normal form: the right operand of a connective is never a bare
 // connective (it is parenthesised), so the tree is exactly what the left-associative grammar yields for its rendering.
+// bigTree: shapes whose SIZE is the point - long flat chains, many negated groups, deep nesting (defects gated on a
+// length, a depth or a count stay invisible to small random rules)
+func bigTree(r *RNG, leaf func() *Node) *Node {
+	switch r.Intn(4) {
+	case 0:
+		n := pick(r, []int{66, 70, 131, 300})
+		acc := leaf()
+		allAnd, allOr := r.Chance(1, 4), r.Chance(1, 4)
+		for i := 1; i < n; i++ {
+			or := r.Chance(1, 2)
+			if allAnd {
+				or = false
+			} else if allOr {
+				or = true
+			}
+			acc = &Node{T: NLogic, Or: or, L: acc, R: leaf()}
+		}
+		return acc
+	case 1:
+		n := pick(r, []int{64, 130, 200})
+		acc := &Node{T: NParen, Neg: true, Q: leaf()}
+		or := r.Chance(1, 2)
+		for i := 1; i < n; i++ {
+			acc = &Node{T: NLogic, Or: or, L: acc, R: &Node{T: NParen, Neg: true, Q: leaf()}}
+		}
+		return acc
+	case 2:
+		d := pick(r, []int{130, 260})
+		t := leaf()
+		for i := 0; i < d; i++ {
+			t = &Node{T: NParen, Neg: r.Chance(1, 3), Q: t}
+		}
+		return t
+	default:
+		d := pick(r, []int{70, 130})
+		t := leaf()
+		for i := 0; i < d; i++ {
+			t = &Node{T: NLogic, Or: r.Chance(1, 2), L: leaf(), R: &Node{T: NParen, Q: t}}
+		}
+		return t
+	}
+}
+
+var bigOneIn = 400
+
 func genTree(r *RNG, leaves int, maxSeg int, leaf func() *Node) *Node {
 	if leaf == nil {
 		leaf = func() *Node { return genLeaf(r, maxSeg) }
+	}
+	// paths are reused inside one rule now and then: the same path again, a dotted suffix of it, or an extension of it
+	var used [][]string
+	base := leaf
+	leaf = func() *Node {
+		n := base()
+		if (n.T == NCmp || n.T == NPres) && len(n.Path) > 0 {
+			if len(used) > 0 && r.Chance(1, 6) {
+				p := pick(r, used)
+				switch {
+				case r.Chance(6, 10):
+					n.Path = append([]string(nil), p...)
+				case len(p) > 1 && r.Chance(1, 2):
+					n.Path = append([]string(nil), p[1+r.Intn(len(p)-1):]...)
+				default:
+					n.Path = append(append([]string(nil), p...), genName(r))
+				}
+			}
+			used = append(used, n.Path)
+		}
+		return n
+	}
+	if leaves > 1 && r.Chance(1, bigOneIn) {
+		return bigTree(r, leaf)
 	}
 	var prim func(budget int) *Node
 	var query func(budget int) *Node
@@ -939,6 +1021,12 @@ func poisonObjects(r *RNG, root *Node) []map[string]interface{} {
 			out = append(out, map[string]interface{}{})
 		default:
 			out = append(out, genObject(r, root, ObjOpts{AbsentPct: 30, NilPct: 10, NullParent: 10, NonObjMid: 30}).GoMap())
+		}
+	}
+	if r.Chance(1, 60) {
+		// a long life before the call under test (behaviour gated on a number of calls)
+		for len(out) < 105+r.Intn(30) {
+			out = append(out, genObject(r, root, ObjOpts{AbsentPct: 20, NilPct: 5}).GoMap())
 		}
 	}
 	return out
